@@ -22,7 +22,7 @@ def iqcase(n1, *children):
         if len(ch) > 2: m |= 1 << (b + 5); m |= ch[2][0] << (b + 6); m |= ch[2][1] << (b + 9)
     return m
 T_IQ, T_ERROR, T_BIND, T_PING, T_TEXT, T_INF, T_ZZ = range(7); N_NONE, N_CLIENT, N_STANZA, N_BIND, N_XY = range(5)
-IQ_SHAPES = dict(empty=iqcase(0), error_cond=iqcase(1, (T_ERROR, N_NONE, (T_INF, N_STANZA))), bind=iqcase(1, (T_BIND, N_BIND, (T_ZZ, N_NONE))),
+IQ_SHAPES = dict(empty=iqcase(0), error_only=iqcase(1, (T_ERROR, N_NONE)), error_cond=iqcase(1, (T_ERROR, N_NONE, (T_INF, N_STANZA))), bind=iqcase(1, (T_BIND, N_BIND, (T_ZZ, N_NONE))),
                  ext_error=iqcase(2, (T_ZZ, N_XY), (T_ERROR, N_NONE, (T_TEXT, N_STANZA))), error_error=iqcase(2, (T_ERROR, N_NONE, (T_INF, N_STANZA)), (T_ERROR, N_CLIENT)),
                  ping_ext=iqcase(2, (T_PING, N_XY, (T_ZZ, N_XY)), (T_ZZ, N_NONE, (T_ERROR, N_NONE))))
 IQ_CASES = [I('iq_' + k, entry='h_iq', dom=6, cdefs={'VP_UTF8_LATIN1': 1, 'VP_CASE': v}, bound='shape %s (VP_CASE=%d); attribute presence/values and text symbolic' % (k, v)) for k, v in IQ_SHAPES.items()]
